@@ -255,9 +255,10 @@ var propRules = map[string]*PropSpec{
 		Technique:  "static analysis: integer-width rule over go/ssa with a triaged allow-list; ownership summaries",
 	},
 	"C16": {
-		Rules:       []string{"A1.api32", "A3.32", "A6.kernel", "F5", "F6", "A4", "F3.32", "F8.bitmap", "F8.run", "F8.scratch", "B6", "A9", "U8", "F5.neg", "F3.64", "U1", "U11"},
+		Rules:       []string{"A1.api32", "A3.32", "A6.kernel", "F5", "F6", "A4", "F3.32", "F8.bitmap", "F8.run", "F8.scratch", "B6", "A9", "U8", "F5.neg", "F3.64", "U1", "U11", "U13"},
 		Explanation: explBase + " C16: AddOffset/Flip/ToDense leave b unchanged; results hold only fresh or properly shared containers; static Flip inserts at the answer's index; addOffset nil discipline; FromDense(no copy) never writes the caller's words; shifted parts are re-typed.",
 		Decided: []string{
+			"the shifted chunk key of AddOffset, computed in signed 32-bit arithmetic, is cut to uint16 only behind comparisons that bound that same expression on both sides",
 			"end-1 of a caller-supplied unsigned range end is computed only where the end is known to be positive (behind the empty-range exit, a zero test or a clamp)",
 			"the two halves produced by addOffset do not share spare capacity of one allocation",
 			"FromDense never consults cap() of the caller's words (nothing beyond len is read)",
